@@ -260,7 +260,7 @@ func init() {
 			}
 			return c
 		},
-		Mons: func(f *Fleet) []Monitor { return []Monitor{&MonC09{}} },
+		Mons: func(f *Fleet) []Monitor { return []Monitor{&MonC09{}, &monOwnVanish{}} },
 		Post: func(f *Fleet, r *RunResult) {
 			m := f.Mon[0].(*MonC09)
 			r.Counts["idle_checks"] = m.IdleChk
@@ -679,6 +679,46 @@ func init() {
 		env.Res.Counts = map[string]int{"instances_at_start": len(atStart), "ro_loaded": len(ro.LoadedEvents())}
 		env.Res.Nontrivial = returned && len(atStart) >= 2
 	}})
+}
+
+// monOwnVanish (fleet-publish, C09): while an instance is starting up, a
+// peer's cleaner outside the fleet removes all of that instance's snapshots
+// (what happens to an instance that was silent for longer than the stale
+// interval). The instance listed its own snapshot and now cannot load it; it
+// must get over that and publish its local data all the same.
+type monOwnVanish struct {
+	BaseMonitor
+	done map[string]bool
+}
+
+func (m *monOwnVanish) StepDone(f *Fleet, actor Actor) {
+	if f.Phase != "workload" {
+		return
+	}
+	for _, n := range f.Nodes {
+		key := fmt.Sprintf("%s#%d", n.Name, n.Inc)
+		if !n.Running || n.Steady() || m.done[key] || n.Inc < 2 {
+			continue
+		}
+		if !f.T.Chance("own-vanish", 40) {
+			continue
+		}
+		if m.done == nil {
+			m.done = map[string]bool{}
+		}
+		m.done[key] = true
+		k := 0
+		for _, name := range f.Bucket.Names() {
+			if strings.HasPrefix(name, DBName+"__"+n.Name+"__") {
+				f.Bucket.Remove(name, "foreign-cleaner")
+				k++
+			}
+		}
+		if k > 0 {
+			f.Sim.Logf("  a cleaner outside the fleet removed the %d snapshot(s) of %s, which is starting up", k, n.Name)
+			f.Sim.Probe("own-snapshots-vanish-at-startup")
+		}
+	}
 }
 
 // monForeignFlags (fleet-header, C14): a peer running other software publishes
